@@ -340,12 +340,17 @@ namespace via
         if (iter == end || (!blank_cr_ && !is_end_of_line(*iter)))
           return false;
 
-        // allow \r\n or just \n
+        // allow \r\n or (unless STRICT_CRLF) just \n
         // Note: the CR may have been read at the end of the previous buffer
         if (!blank_cr_ && ('\r' == *iter))
         {
           blank_cr_ = true;
           ++iter;
+        }
+        else
+        { // enforce if strict
+          if (STRICT_CRLF && !blank_cr_)
+            return false;
         }
 
         if ((iter == end) || ('\n' != *iter))
